@@ -6,6 +6,7 @@
    definitions (success paths only); Proofs/ExprParserProofs.v builds the round-trip theorems
    from the rules alone. *)
 From Soy Require Import Model.Bytes Model.Num Model.Values Model.Ast Model.Token Model.NumLit Model.Quote Model.ExprParser Generated.Tables.
+From Soy Require Proofs.NumLitProofs.
 Require Import Lia ZifyBool ZifyNat ZifyN.
 Open Scope N_scope.
 
@@ -328,6 +329,13 @@ Proof.
   change (pk_itemFloat =? pk_itemNull) with false. change (pk_itemFloat =? pk_itemBool) with false.
   change (pk_itemFloat =? pk_itemInteger) with false. change (pk_itemFloat =? pk_itemFloat) with true.
   cbv iota. rewrite Hz. reflexivity.
+Qed.
+
+Lemma Value_float_round t l x : t_typ t = pk_itemFloat -> parse_float_round (t_val t) = FRVal x ->
+  Value t l (NFloat (t_pos t) x) l.
+Proof.
+  intros Ht Hz st Hs Hi. rewrite <- Hs. apply ok2_here; [assumption|]. intros.
+  rewrite NumLitProofs.float_value_node by exact Ht. rewrite Hz. reflexivity.
 Qed.
 
 Lemma Value_string t l s : t_typ t = pk_itemString -> unquote_string (t_val t) = Some s ->
